@@ -8,6 +8,7 @@ package engine
 
 import (
 	"fmt"
+	"github.com/openGemini/openGemini/lib/syscontrol"
 	"os"
 	"path/filepath"
 	"sort"
@@ -514,6 +515,9 @@ func dSetup() {
 			logger.SetLogger(zap.NewNop())
 		}
 		meta.DataLogger = zap.NewNop() // the meta service sets it at start-up
+		// ts-store's start-up applies the configuration default IndexReadCachePersistent=false (app/ts-store/run/server.go);
+		// the package default is true, which would keep the key->id cache across clean restarts and hide cold lookups
+		syscontrol.SetIndexReadCachePersistent(false)
 	})
 }
 
@@ -521,10 +525,10 @@ func dSetup() {
 
 type dNode struct {
 	distinctSeq bool
-	root string
-	eng  *EngineImpl
-	mc   *dMeta
-	inc  int
+	root        string
+	eng         *EngineImpl
+	mc          *dMeta
+	inc         int
 }
 
 func (run *dRun) engineOptions() EngineOptions {
@@ -546,7 +550,7 @@ func (run *dRun) openNode(root string, cat *dCatalogue, inc int) (*dNode, error)
 	}
 	applyKnobs(run.c.Knobs) // NewEngine re-applies option values; the knobs win
 	n := &dNode{root: root, eng: e.(*EngineImpl), mc: &dMeta{cat: cat}, inc: inc, distinctSeq: run.c.DistinctSeq}
-	n.eng.SetMetaClient(n.mc) // OpenStorage does this right after creating the engine
+	n.eng.SetMetaClient(n.mc)           // OpenStorage does this right after creating the engine
 	metaclient.LogicClock = uint64(inc) // what LoadLogicalClock does at every process start
 	for db := 0; db < run.c.NDB; db++ {
 		dbi := cat.data.Database(dDBName(db))
@@ -709,13 +713,13 @@ type dRun struct {
 	seen    map[string]bool // series (db/rp/name/s) whose creation has been followed by an index flush
 	// immediate: per (target, shape) - did the shape return data of drop generation g when it was
 	// first checked after that drop?  (a leak that shows only later has "reappeared")
-	leaked   map[string]bool
-	checked  map[string]bool
-	mstEver  map[[3]int]bool // (db, rp, m) ever created
-	physOld  map[string]int // "db/rp/m/name" of measurements whose drop was completed -> by which operation
-	crashing bool
-	unflushed map[dCell]bool // cells written since the last flush (probe: drop of data in memtable)
-	cellGens  map[dCell]map[int64]bool // flush generations in which a (series, timestamp) was written
+	leaked    map[string]bool
+	checked   map[string]bool
+	mstEver   map[[3]int]bool // (db, rp, m) ever created
+	physOld   map[string]int  // "db/rp/m/name" of measurements whose drop was completed -> by which operation
+	crashing  bool
+	unflushed map[dCell]bool             // cells written since the last flush (probe: drop of data in memtable)
+	cellGens  map[dCell]map[int64]bool   // flush generations in which a (series, timestamp) was written
 	idxNames  map[string]map[string]bool // "db/rp/pt/indexID" -> versioned measurement names with series in that index
 	physEver  map[string]bool            // "db/rp/name": the versioned name was in use in that policy at some time
 	idxBorn   map[string]int             // "db/rp/pt/indexID" -> operation that first wrote into that index
